@@ -258,9 +258,17 @@ def rule_r4(ctx: Ctx) -> None:
     ctx.check(not bad, fn.short, "root inferred from bare names, over orders of the names", "when several listed names occur in the path the outermost directory wins, whatever the order of the names", fn.where(), bad)
 
 
+def rule_r5_ambient(ctx: Ctx) -> None:
+    from . import ambient
+
+    ctx.rule("C15.R5", "the mapping from paths to names is computed from the arguments and the working directory / file system of the call: no memoised function of the package reaches Path.resolve / exists / cwd / the environment (a relative root resolved once would keep designating the directory of the first call's working directory)", min_instances=1)
+    ambient.rule(ctx, "C15.R5", "a relative or bare root designation means the directory it names *now*; an answer kept from an earlier call (another working directory, another state of the file system) maps the file to another root and so to another name")
+
+
 def run(ctx: Ctx) -> None:
     ctx.attempt(rule_r1, ctx)
     ctx.attempt(rule_r2, ctx)
     ctx.attempt(rule_r3, ctx)
     ctx.attempt(rule_r4, ctx)
+    ctx.attempt(rule_r5_ambient, ctx)
     ctx.undecided("equivalence of the four root-inference strategies for all argument spellings: file-system and working-directory dependent behaviour with no static abstraction in reach (only the order-independence of the bare-name strategy is decided)")
